@@ -85,6 +85,15 @@ pub struct EnumM {
     pub lt: bool,
 }
 
+/// A `#[derive(CommandGroup)]` enum used as the type of a sub-command (`#[command(subcommand)] Dev(Dev<'a>)`)
+#[derive(Clone, Debug, PartialEq, Eq, Serialize, Deserialize)]
+pub struct SubGroupM {
+    pub id: String,
+    /// members in declaration order (never the RawCommand catch-all)
+    pub members: Vec<RootM>,
+    pub lt: bool,
+}
+
 #[derive(Clone, Debug, PartialEq, Eq, Serialize, Deserialize)]
 pub struct RootM {
     /// enum id, or "RAW" for the RawCommand catch-all
@@ -103,9 +112,32 @@ pub struct Decl {
     /// generated for a build without the help feature: `-h` / `--help` / `help` are ordinary names there
     #[serde(default)]
     pub help_names: bool,
+    /// command groups used as sub-command types (`SubM::enum_id` may name one of these instead of an enum)
+    #[serde(default)]
+    pub subgroups: BTreeMap<String, SubGroupM>,
 }
 
 impl Decl {
+    /// The enums a sub-command id stands for, in the order they are tried: (enum id, hidden, wrapping variant of the group)
+    pub fn sub_members(&self, id: &str) -> Vec<(String, bool, Option<String>)> {
+        match self.subgroups.get(id) {
+            Some(g) => g.members.iter().map(|m| (m.enum_id.clone(), m.hidden, Some(m.ident.clone()))).collect(),
+            None => vec![(id.to_string(), false, None)],
+        }
+    }
+
+    /// Variants a user can name at this sub-command position (`visible_only`: those help may show)
+    pub fn sub_variants(&self, id: &str, visible_only: bool) -> Vec<&VariantM> {
+        let mut out = Vec::new();
+        for (eid, hidden, _) in self.sub_members(id) {
+            if hidden && visible_only {
+                continue;
+            }
+            out.extend(self.enums[&eid].variants.iter());
+        }
+        out
+    }
+
     pub fn has_raw(&self) -> bool {
         self.roots.iter().any(|r| r.enum_id == "RAW")
     }
@@ -181,6 +213,7 @@ struct Gen<'r> {
     /// declarations for builds without the help feature: `help`, `-h` and `--help` are ordinary names there,
     /// so commands and options may be called that
     help_names: bool,
+    subgroups: BTreeMap<String, SubGroupM>,
 }
 
 impl Gen<'_> {
@@ -245,6 +278,33 @@ impl Gen<'_> {
                 })
             }
         }
+    }
+
+    /// The type of a sub-command: an enum, or now and then a command group of two enums (one of them possibly hidden)
+    fn mk_sub(&mut self, depth: usize) -> String {
+        let mut none = Vec::new();
+        let first = self.mk_enum(depth, &mut none);
+        if !self.r.chance(22) {
+            return first;
+        }
+        let second = self.mk_enum(depth, &mut none);
+        // names unique across the members
+        let taken: Vec<String> = self.enums[&first].variants.iter().map(|v| v.name.clone()).collect();
+        for v in self.enums.get_mut(&second).unwrap().variants.iter_mut() {
+            if taken.contains(&v.name) {
+                v.name = format!("{}2", v.name);
+                v.explicit = true;
+            }
+        }
+        self.uid += 1;
+        let id = format!("SG{}", self.uid);
+        let hide = self.r.below(4);
+        let members = vec![
+            RootM { enum_id: first, hidden: hide == 0, ident: "Ma".into() },
+            RootM { enum_id: second, hidden: hide == 1, ident: "Mb".into() },
+        ];
+        self.subgroups.insert(id.clone(), SubGroupM { id: id.clone(), members, lt: false });
+        id
     }
 
     fn mk_enum(&mut self, depth: usize, taken_names: &mut Vec<String>) -> String {
@@ -312,8 +372,7 @@ impl Gen<'_> {
             if kind < 15 {
                 // unit
             } else if kind < 27 && depth < 2 {
-                let mut none = Vec::new();
-                let sub = self.mk_enum(depth + 1, &mut none);
+                let sub = self.mk_sub(depth + 1);
                 v.tuple = true;
                 v.sub = Some(SubM {
                     enum_id: sub,
@@ -449,8 +508,7 @@ impl Gen<'_> {
                     v.fields.push(f);
                 }
                 if has_sub {
-                    let mut none = Vec::new();
-                    let sub = self.mk_enum(depth + 1, &mut none);
+                    let sub = self.mk_sub(depth + 1);
                     v.sub = Some(SubM {
                         enum_id: sub,
                         optional: self.r.chance(40),
@@ -489,8 +547,11 @@ fn sample_default(ty: &str, r: &mut R) -> (String, String) {
     }
 }
 
-fn needs_lt(id: &str, enums: &BTreeMap<String, EnumM>) -> bool {
-    enums[id].variants.iter().any(|v| v.fields.iter().any(|f| f.ty.contains("'a")) || v.sub.as_ref().map(|s| needs_lt(&s.enum_id, enums)).unwrap_or(false))
+fn needs_lt(id: &str, enums: &BTreeMap<String, EnumM>, groups: &BTreeMap<String, SubGroupM>) -> bool {
+    if let Some(g) = groups.get(id) {
+        return g.members.iter().any(|m| needs_lt(&m.enum_id, enums, groups));
+    }
+    enums[id].variants.iter().any(|v| v.fields.iter().any(|f| f.ty.contains("'a")) || v.sub.as_ref().map(|s| needs_lt(&s.enum_id, enums, groups)).unwrap_or(false))
 }
 
 pub fn generate(id: usize, r: &mut R) -> Decl {
@@ -505,6 +566,7 @@ pub fn generate_opts(id: usize, r: &mut R, help_names: bool) -> Decl {
         enums: BTreeMap::new(),
         docn: 0,
         help_names,
+        subgroups: BTreeMap::new(),
     };
     let grouped = g.r.chance(40);
     let nroots = if grouped { g.r.range(2, 4) } else { 1 };
@@ -550,9 +612,15 @@ pub fn generate_opts(id: usize, r: &mut R, help_names: bool) -> Decl {
         }
     }
     let ids: Vec<String> = enums.keys().cloned().collect();
+    let mut subgroups = std::mem::take(&mut g.subgroups);
     for id in &ids {
-        let lt = needs_lt(id, &enums);
+        let lt = needs_lt(id, &enums, &subgroups);
         enums.get_mut(id).unwrap().lt = lt;
+    }
+    let gids: Vec<String> = subgroups.keys().cloned().collect();
+    for id in &gids {
+        let lt = needs_lt(id, &enums, &subgroups);
+        subgroups.get_mut(id).unwrap().lt = lt;
     }
     let root_lt = roots.iter().any(|r| r.enum_id == "RAW" || enums[&r.enum_id].lt);
     Decl {
@@ -562,6 +630,7 @@ pub fn generate_opts(id: usize, r: &mut R, help_names: bool) -> Decl {
         grouped,
         root_lt,
         help_names,
+        subgroups,
     }
 }
 
@@ -588,12 +657,14 @@ fn lt(b: bool) -> &'static str {
     }
 }
 
-fn emit_enum(en: &EnumM, enums: &BTreeMap<String, EnumM>) -> String {
+fn emit_enum(en: &EnumM, enums: &BTreeMap<String, EnumM>, groups: &BTreeMap<String, SubGroupM>) -> String {
     let mut o = String::new();
     o.push_str(&format!("#[derive(Debug, Command)]\npub enum {}{} {{\n", en.id, lt(en.lt)));
     let subty = |s: &SubM| {
-        let se = &enums[&s.enum_id];
-        let t = format!("{}{}", se.id, lt(se.lt));
+        let t = match groups.get(&s.enum_id) {
+            Some(g) => format!("{}{}", g.id, lt(g.lt)),
+            None => format!("{}{}", enums[&s.enum_id].id, lt(enums[&s.enum_id].lt)),
+        };
         if s.optional {
             format!("Option<{}>", t)
         } else {
@@ -659,7 +730,17 @@ pub fn emit_module(d: &Decl) -> String {
     o.push_str(&format!("pub mod d{} {{\n    #![allow(dead_code, unused, non_camel_case_types)]\n    use embedded_cli::{{Command, CommandGroup}};\n    use embedded_cli::command::RawCommand;\n\n", d.id));
     let mut body = String::new();
     for e in d.enums.values() {
-        body.push_str(&emit_enum(e, &d.enums));
+        body.push_str(&emit_enum(e, &d.enums, &d.subgroups));
+    }
+    for g in d.subgroups.values() {
+        body.push_str(&format!("#[derive(Debug, CommandGroup)]\npub enum {}{} {{\n", g.id, lt(g.lt)));
+        for m in &g.members {
+            if m.hidden {
+                body.push_str("    #[group(hidden)]\n");
+            }
+            body.push_str(&format!("    {}({}{}),\n", m.ident, m.enum_id, lt(d.enums[&m.enum_id].lt)));
+        }
+        body.push_str("}\n\n");
     }
     if d.grouped {
         body.push_str(&format!("#[derive(Debug, CommandGroup)]\npub enum Root{} {{\n", lt(d.root_lt)));
@@ -879,7 +960,7 @@ fn parse_enum(d: &Decl, eid: &str, name: &str, tokens: &[String]) -> Expect {
                     }
                     expect = None;
                 } else if let Some(s) = &v.sub {
-                    match parse_enum(d, &s.enum_id, x, &tokens[ti + 1..]) {
+                    match parse_sub(d, &s.enum_id, x, &tokens[ti + 1..]) {
                         Expect::Ok(r) => subres = Some(r),
                         other => return other,
                     }
@@ -941,6 +1022,30 @@ fn parse_enum(d: &Decl, eid: &str, name: &str, tokens: &[String]) -> Expect {
         parts.push(format!("{}: {}", s.field.as_ref().unwrap(), sv));
     }
     Expect::Ok(format!("{} {{ {} }}", v.ident, parts.join(", ")))
+}
+
+/// A sub-command position: an enum, or a command group whose members are tried in order
+fn parse_sub(d: &Decl, id: &str, name: &str, tokens: &[String]) -> Expect {
+    for (eid, _hidden, wrap) in d.sub_members(id) {
+        match parse_enum(d, &eid, name, tokens) {
+            Expect::Err(ref e) if e == &vec![PErr::UnknownCommand] => {
+                if wrap.is_none() {
+                    return Expect::Err(vec![PErr::UnknownCommand]);
+                }
+                // (names are unique across the members and there is no catch-all here: a member that knows the name
+                // but not what follows it still ends in "unknown command")
+                continue;
+            }
+            Expect::Ok(s) => {
+                return Expect::Ok(match wrap {
+                    Some(w) => format!("{}({})", w, s),
+                    None => s,
+                })
+            }
+            other => return other,
+        }
+    }
+    Expect::Err(vec![PErr::UnknownCommand])
 }
 
 /// What parsing `name tokens...` must yield for this declaration
@@ -1060,7 +1165,16 @@ fn help_in_enum(d: &Decl, eid: &str, name: &str, tokens: &[String], mut path: Ve
                 if expect {
                     expect = false;
                 } else {
-                    return help_in_enum(d, &sub.enum_id, x, &tokens[ti_of[i] + 1..], path);
+                    // a command group as sub-command type: the first visible member that knows the name
+                    for (eid, hidden, _) in d.sub_members(&sub.enum_id) {
+                        if hidden {
+                            continue;
+                        }
+                        if d.enums[&eid].variants.iter().any(|v| v.name == *x) {
+                            return help_in_enum(d, &eid, x, &tokens[ti_of[i] + 1..], path);
+                        }
+                    }
+                    return HelpExpect::Unknown;
                 }
             }
         }
